@@ -156,11 +156,16 @@ def k_batch(N=3, G=1, mode="both", states=2, max_est=10000, sym_np=True, shapes=
         cluster._update_job_status = rec_update
         sub = hs.HpcSubmitter(config, os.path.join(out, "config.json"), cluster, out)
         # ---- the round
+        from jsym import PathBudget
+
         try:
             sub.run()
             raised = None
         except Exception as e:  # noqa: a fault-free round must not raise
             raised = "%s: %s" % (type(e).__name__, str(e)[:120])
+        except PathBudget:
+            ex.check(False, "C05: submitter round did not terminate within the path budget")
+            return
         # ---- oracle
         batches = []
         for (data, fname) in W["dumps"]:
